@@ -19,6 +19,7 @@ pub mod c20;
 pub mod backend;
 pub mod cli;
 pub mod common;
+pub mod opmatrix;
 pub mod corecase;
 
 use crate::runner::Ctx;
